@@ -94,11 +94,11 @@ def focus_fixed_sampling(wavefunction, input_dx, prop_dist,
     if not isinstance(output_samples, Iterable):
         output_samples = (output_samples, output_samples)
 
-    dia = wavefunction.shape[0] * input_dx
-    Q = Q_for_sampling(input_diameter=dia,
-                       prop_dist=prop_dist,
-                       wavelength=wavelength,
-                       output_dx=output_dx)
+    # one Q per axis: a non-square array has a different diameter along each axis
+    Q = tuple(Q_for_sampling(input_diameter=s * input_dx,
+                             prop_dist=prop_dist,
+                             wavelength=wavelength,
+                             output_dx=output_dx) for s in wavefunction.shape)
     if shift[0] != 0 or shift[1] != 0:
         shift = (shift[0]/output_dx, shift[1]/output_dx)
 
@@ -145,11 +145,11 @@ def focus_fixed_sampling_backprop(wavefunction, input_dx, prop_dist,
     if not isinstance(output_samples, Iterable):
         output_samples = (output_samples, output_samples)
 
-    dia = output_samples[0] * input_dx
-    Q = Q_for_sampling(input_diameter=dia,
-                       prop_dist=prop_dist,
-                       wavelength=wavelength,
-                       output_dx=output_dx)
+    # one Q per axis, as in the forward routine (output_samples is the forward input's shape)
+    Q = tuple(Q_for_sampling(input_diameter=s * input_dx,
+                             prop_dist=prop_dist,
+                             wavelength=wavelength,
+                             output_dx=output_dx) for s in output_samples)
     if shift[0] != 0 or shift[1] != 0:
         shift = (shift[0]/output_dx, shift[1]/output_dx)
 
@@ -203,14 +203,12 @@ def unfocus_fixed_sampling(wavefunction, input_dx, prop_dist,
     if not isinstance(output_samples, Iterable):
         output_samples = (output_samples, output_samples)
 
-    dias = [output_dx * s for s in output_samples]
-    dia = max(dias)
-    Q = Q_for_sampling(input_diameter=dia,
-                       prop_dist=prop_dist,
-                       wavelength=wavelength,
-                       output_dx=input_dx)  # not a typo
-
-    Q /= wavefunction.shape[0] / output_samples[0]
+    # one Q per axis: the diameter and the input/output sample ratio both differ per axis for non-square arrays
+    Q = tuple(Q_for_sampling(input_diameter=output_dx * so,
+                             prop_dist=prop_dist,
+                             wavelength=wavelength,
+                             output_dx=input_dx) / (si / so)  # not a typo
+              for si, so in zip(wavefunction.shape, output_samples))
 
     if shift[0] != 0 or shift[1] != 0:
         shift = (shift[0]/output_dx, shift[1]/output_dx)
